@@ -99,6 +99,14 @@ class ModuleAwareEvaluator(Evaluator):
         if isinstance(e, ast.Name) and e.id not in env and e.id not in self.globals and e.id in self.prog.classes \
                 and e.id not in self.classes:
             return self.type_token(e.id)
+        if isinstance(e, ast.Attribute) and e.attr == "__class__":
+            base = self.expr(e.value, env)
+            if isinstance(base, Obj) and "__class__" not in base.__dict__:
+                return self.type_token(base._cls)
+        if isinstance(e, ast.Attribute) and e.attr in ("__name__", "__qualname__"):
+            base = self.expr(e.value, env)
+            if isinstance(base, _TypeToken):
+                return base.name
         return super().expr(e, env)
 
     def _isinstance(self, v, texpr) -> bool:
@@ -178,6 +186,12 @@ def evaluator_for(prog: Program, cls_name: str, sc: StubContext, max_steps: int 
     natives = {("Context", "new_error"): new_error, ("Context", "new_warning"): new_error,
                ("Context", "dprint"): lambda *a, **k: None}
     ev = ModuleAwareEvaluator(prog, methods, natives=natives, max_steps=max_steps)
+    # record classes of context.py that rules build themselves (Macro): constructed and their classmethods interpreted
+    for cn, c in prog.classes.items():
+        if c.mod.rel == "context.py" and any("dataclass" in ast.unparse(d) for d in c.node.decorator_list):
+            ev.classes[cn] = c.node
+            for n, m in c.methods.items():
+                methods.setdefault((cn, n), m.node)
 
     def type_(o):
         if isinstance(o, Obj):
